@@ -6,6 +6,7 @@ import (
 	"fmt"
 	"strings"
 	"testing"
+	"time"
 
 	"github.com/graphql-go/graphql"
 	"pgregory.net/rapid"
@@ -20,101 +21,14 @@ import (
 // C19 — planning and validation work is polynomial in document size.
 // Work is measured by the step counters behind the `verif` build tag, never by a clock.
 
+// c19Sub names the running sub-check for failures reported from inside the ladders.
+var c19Sub = "ladder"
+
 type ScaleCase struct {
 	Family string       `json:"family"`
 	N      int          `json:"n"`
 	M      int          `json:"m,omitempty"` // implementers (family depth)
 	Recipe *ScaleRecipe `json:"recipe,omitempty"`
-}
-
-// ScaleRecipe composes a document family from independent choices: how the first fragment is
-// reached from the root (several contexts, optionally under different concrete types and under
-// one response key), which later fragments every fragment spreads, and how (directly, through
-// a field, through aliased fields).
-type ScaleRecipe struct {
-	Contexts []ScaleContext `json:"contexts"`
-	Edges    string         `json:"edges"` // next | next2 | later | half | mod3
-	Wrap     string         `json:"wrap"`  // direct | field | alias | mixed
-}
-
-type ScaleContext struct {
-	OnType int  `json:"onType"` // -1: no type condition; else ... on T<OnType>
-	Keyed  bool `json:"keyed"`  // spread under `child: next { }` instead of directly
-}
-
-func (r *ScaleRecipe) edges(i, n int) []int {
-	var out []int
-	add := func(j int) {
-		if j > i && j < n {
-			for _, x := range out {
-				if x == j {
-					return
-				}
-			}
-			out = append(out, j)
-		}
-	}
-	switch r.Edges {
-	case "next":
-		add(i + 1)
-	case "next2":
-		add(i + 1)
-		add(i + 2)
-	case "later":
-		for j := i + 1; j < n; j++ {
-			add(j)
-		}
-	case "half":
-		add(i + 1)
-		add(i + n/2)
-	case "mod3":
-		for j := i + 1; j < n; j++ {
-			if (j-i)%3 == 1 {
-				add(j)
-			}
-		}
-	}
-	return out
-}
-
-func recipeDoc(r *ScaleRecipe, n int) string {
-	var sb strings.Builder
-	sb.WriteString("{ node { ")
-	for _, c := range r.Contexts {
-		if c.OnType >= 0 {
-			fmt.Fprintf(&sb, "... on T%d { ", c.OnType)
-		}
-		if c.Keyed {
-			sb.WriteString("child: next { ...F0 } ")
-		} else {
-			sb.WriteString("...F0 ")
-		}
-		if c.OnType >= 0 {
-			sb.WriteString("} ")
-		}
-	}
-	sb.WriteString("} }")
-	for i := 0; i < n; i++ {
-		fmt.Fprintf(&sb, " fragment F%d on Node { v ", i)
-		for k, j := range r.edges(i, n) {
-			wrap := r.Wrap
-			// every edge of one document goes through the same response key: two keys per level
-			// would make the response itself (and so any plan of it) exponential in n
-			if wrap == "mixed" {
-				wrap = []string{"direct", "field"}[(i+k)%2]
-			}
-			switch wrap {
-			case "direct":
-				fmt.Fprintf(&sb, "...F%d ", j)
-			case "field":
-				fmt.Fprintf(&sb, "next { ...F%d } ", j)
-			default:
-				fmt.Fprintf(&sb, "e: next { ...F%d } ", j)
-			}
-		}
-		sb.WriteString("}")
-	}
-	return sb.String()
 }
 
 // c19RecipeLadder measures a recipe at sizes growing by 1.5 and compares consecutive sizes:
@@ -133,6 +47,9 @@ func c19RecipeLadder(c *ScaleCase) (msg string, series []uint64) {
 	var prev uint64
 	for i, n := range sizes {
 		sm, err := measure(b, w, recipeDoc(c.Recipe, n))
+		if capped, ok := err.(errStepCap); ok {
+			fatalViolation("C19", c19Sub, c, "recipe %+v: work at n=%d %s; the smaller sizes n=%v took %v steps\n  document at n=4: %s", *c.Recipe, n, capped.Error(), sizes[:i], series, recipeDoc(c.Recipe, 4))
+		}
 		if err != nil {
 			return fmt.Sprintf("HARNESS: recipe %+v n=%d: %v", *c.Recipe, n, err), series
 		}
@@ -254,7 +171,65 @@ type scaleMeasure struct {
 	abstractSeen         int
 }
 
-func measure(b *build.Built, w *ref.World, text string) (sm scaleMeasure, err error) {
+// stepCap bounds one measurement: work beyond it is not waited for (an exponential blow-up
+// would not finish). errStepCap carries the steps counted when the cap was passed.
+const stepCap = 30_000_000
+
+// stallLimit: wall-clock bound of one measurement (a backstop, not the oracle: growth is judged
+// on step counts).
+const stallLimit = 120 * time.Second
+
+type errStepCap struct{ steps uint64 }
+
+func (e errStepCap) Error() string {
+	if e.steps <= stepCap {
+		return fmt.Sprintf("did not finish within %v (%d steps counted) and was abandoned", stallLimit, e.steps)
+	}
+	return fmt.Sprintf("passed %d steps and was abandoned", e.steps)
+}
+
+func totalSteps() uint64 {
+	var n uint64
+	for _, x := range graphql.VerifSteps() {
+		n += x
+	}
+	return n
+}
+
+// measure runs measureUnbounded on its own goroutine and gives up once the step counters pass
+// stepCap. After that the abandoned goroutine keeps counting, so the caller must not measure
+// again in this process (see fatalViolation).
+func measure(b *build.Built, w *ref.World, text string) (scaleMeasure, error) {
+	type out struct {
+		sm  scaleMeasure
+		err error
+	}
+	ch := make(chan out, 1)
+	go func() {
+		sm, err := measureUnbounded(b, w, text)
+		ch <- out{sm, err}
+	}()
+	tick := time.NewTicker(5 * time.Millisecond)
+	defer tick.Stop()
+	start := time.Now()
+	for {
+		select {
+		case o := <-ch:
+			return o.sm, o.err
+		case <-tick.C:
+			if n := totalSteps(); n > stepCap {
+				return scaleMeasure{}, errStepCap{n}
+			}
+			// work the counters do not see: the largest measurement on the unchanged tree takes
+			// milliseconds, so minutes mean it will not finish
+			if time.Since(start) > stallLimit {
+				return scaleMeasure{}, errStepCap{totalSteps()}
+			}
+		}
+	}
+}
+
+func measureUnbounded(b *build.Built, w *ref.World, text string) (sm scaleMeasure, err error) {
 	doc, perr := parseText(text)
 	if perr != nil {
 		return sm, perr
@@ -319,6 +294,9 @@ func c19Ladder(c *ScaleCase, sizes []int) (msg string, series []uint64) {
 	var base float64
 	for i, n := range sizes {
 		sm, err := measure(b, w, scaleDoc(c.Family, n, m))
+		if capped, ok := err.(errStepCap); ok {
+			fatalViolation("C19", c19Sub, c, "family %s (m=%d): work at n=%d %s; the smaller sizes n=%v took %v steps", c.Family, m, n, capped.Error(), sizes[:i], series)
+		}
 		if err != nil {
 			return fmt.Sprintf("HARNESS: family %s n=%d: %v", c.Family, n, err), series
 		}
@@ -346,6 +324,7 @@ func c19Ladder(c *ScaleCase, sizes []int) (msg string, series []uint64) {
 
 // TestC19_Ladder: fixed doubling ladders per family.
 func TestC19_Ladder(t *testing.T) {
+	c19Sub = "ladder"
 	if replayFile() != "" {
 		var rc ScaleCase
 		if loadReplay(t, "C19", &rc, "ladder") {
@@ -401,10 +380,13 @@ func TestC19_Implementers(t *testing.T) {
 				t.Fatalf("HARNESS: %v", err)
 			}
 			sm, err := measure(b, w, scaleDoc("depth", n, m))
+			c := &ScaleCase{Family: "depth", N: n, M: m}
+			if capped, ok := err.(errStepCap); ok {
+				fatalViolation("C19", "implementers", c, "a depth-%d query with %d implementers %s", n, m, capped.Error())
+			}
 			if err != nil {
 				t.Fatalf("HARNESS: %v", err)
 			}
-			c := &ScaleCase{Family: "depth", N: n, M: m}
 			stats.R.Case(fmt.Sprintf("impl/%d/%d", n, m), true, func() interface{} {
 				return map[string]interface{}{"depth": n, "implementers": m, "plan_steps": sm.plan, "validate_steps": sm.validate, "exec_steps": sm.exec, "abstract_types_planned_at_execution": sm.abstractPlanned}
 			})
@@ -423,6 +405,7 @@ func TestC19_Implementers(t *testing.T) {
 
 // TestC19_Gen: rapid-drawn sizes and families against the cubic envelope.
 func TestC19_Gen(t *testing.T) {
+	c19Sub = "gen"
 	var rc ScaleCase
 	if loadReplay(t, "C19", &rc, "gen") {
 		if rc.Recipe != nil {
@@ -438,10 +421,7 @@ func TestC19_Gen(t *testing.T) {
 	}
 	rapid.Check(t, func(rt *rapid.T) {
 		if gen.Chance(rt, 50, "recipe") {
-			r := &ScaleRecipe{Edges: []string{"next", "next2", "later", "half", "mod3"}[gen.Uniform(rt, 5, "edges")], Wrap: []string{"direct", "field", "alias", "mixed"}[gen.Uniform(rt, 4, "wrap")]}
-			for i, k := 0, gen.Intn(rt, 1, 3, "contexts"); i < k; i++ {
-				r.Contexts = append(r.Contexts, ScaleContext{OnType: gen.Uniform(rt, 5, "onType") - 1, Keyed: gen.Chance(rt, 50, "keyed")})
-			}
+			r := drawRecipe(rt)
 			c := &ScaleCase{Family: "recipe", Recipe: r}
 			msg, series := c19RecipeLadder(c)
 			stats.R.Class("gen_family_recipe_" + r.Edges)
